@@ -60,6 +60,10 @@ CHECKS = {
    technique="bounded-exhaustive enumeration of fault subsets (all subsets up to k of 29 structural faults) x every command configuration, executed on the built binary with a process-level crash/hang oracle",
    text="The gedcom binary built from the working tree is run on the base family graph perturbed by every subset of up to 2 (quick) / 3 (thorough) of 29 structural faults, each accepted by the decoder, under: warnings; publish x living {show,hide,placeholder} x page-group switch sets (8 quick / all 64 thorough) x jobs {1,2}; diff against itself and the clean base x show x sort x jobs; 20 queries x 5 formats. Every run must exit 0, or 1 with an ERROR: line, without 'panic:'/'fatal error:' on stderr, within a 20 s watchdog.",
    note="Crash signatures carry command kind, innermost repository frame, message class and the minimal reproducing fault subset; because map order and goroutine timing decide which page crashes first, a replay confirms a finding when the same command kind crashes again (>=1 of 5 replays). After a hang the remaining variants of that command kind are skipped for that file."),
+ "C15": dict(engine="E3", category="exploration", design_ref="§4 C15",
+   technique="bounded-exhaustive enumeration of query programs (all token sequences up to k over the token alphabet, all reflected accessor chains up to depth 3 x function suffixes, all single-token mutations of examples, all short byte strings) in crash-isolating worker subprocesses",
+   text="Every sequence of up to 3 (quick) / 4 (thorough) tokens over a 36-token alphabet, every accessor chain up to length 3 over the methods and fields reflection exposes from *Document (computed at run time, so new methods are included) with 15 function suffixes, every single-token deletion/duplication/swap of 14 examples and every byte string up to 4 over 8 bytes, parsed and evaluated on four documents (singly and in pairs); every value is written by all five formatters. ParseString must return engine xor error, Evaluate value or error, Write nil or error; no recovered panic, no process death (stack overflow), no hang.",
+   note="Workers announce each case before running it; a process death is attributed to the announced case and the unit resumes after it. Since fix dbd0690 panics inside Evaluate surface as errors, so expression-level reflection faults are now C16's business (wrong result / unexpected error), not C15's."),
  "C20": dict(engine="E3", category="exploration", design_ref="§4 C20",
    technique="bounded-exhaustive enumeration of skeleton family graphs x all slot assignments with up to k deviations from threshold lattices x all record/child permutations, against an independent reference evaluator of the documented warning conditions",
    text="Skeleton documents (two families sharing a parent with 0-3 children; a 5-record family) with each date/sex slot either at a no-warning default or at a value clearly on one side of a documented threshold; every assignment with up to 2 (quick) / 3 (thorough) deviating slots; all 120 record orders x both child orders of the small skeleton; the multiset of (warning name, people, context) from Document.Warnings() must equal the reference evaluator's.",
